@@ -53,6 +53,34 @@ RecoveryBase(rate, k, r) == IF rate = "high" THEN 0 ELSE NPot(k)
 BitmapNeed(rate, k, r)   == IF rate = "high" THEN NPot(r) + k ELSE NPot(k) + r
 
 (***************************************************************************)
+(* Rows as run-lengths.  For a fixed original_count k the value of a       *)
+(* predicate over recovery_count r = 0 .. Order+1 only changes at a few    *)
+(* breakpoints; ValueAt gives 0 = unsupported, 1 = supported (for the      *)
+(* predicate "rule": 1 = high rate, 2 = low rate).  ThmBreaks (checked on  *)
+(* the whole square for Bits <= 8) says the value is constant between      *)
+(* consecutive breakpoints, which is what lets a 16-bit row be validated   *)
+(* from its run-lengths alone.                                             *)
+(***************************************************************************)
+ValueAt(pred, k, r) ==
+  IF pred = "rule" THEN (IF ~DefaultSupports(k, r) THEN 0 ELSE IF UseHigh(k, r) THEN 1 ELSE 2)
+  ELSE IF Supports(pred, k, r) THEN 1 ELSE 0
+Breaks(pred, k) ==
+  {0, 1, EOrder + 2}
+  \cup {RowMax(IF pred = "rule" THEN "default" ELSE pred, k) + 1}
+  \cup (IF pred = "rule" /\ k >= 1 /\ k <= EOrder THEN {NPot(k) \div 2 + 1, k, NPot(k) + 1} ELSE {})
+\* the breakpoint at or below r
+BreakBelow(pred, k, r) == EMax({b \in Breaks(pred, k) : b <= r})
+\* expected run-lengths of row k over r = 0 .. Order+1: <<value, length>>, equal neighbours merged
+RowRuns(pred, k) ==
+  LET bs == {b \in Breaks(pred, k) : b <= EOrder + 1}
+      starts == {b \in bs : b = 0 \/ ValueAt(pred, k, b) # ValueAt(pred, k, EMax({c \in bs : c < b}))}
+      nxt(b) == IF \E c \in starts : c > b THEN CHOOSE c \in starts : c > b /\ \A d \in starts : d > b => c <= d
+                ELSE EOrder + 2
+      ord == [n \in 1..Cardinality(starts) |-> CHOOSE b \in starts : Cardinality({c \in starts : c < b}) = n - 1]
+  IN [n \in 1..Cardinality(starts) |-> <<ValueAt(pred, k, ord[n]), nxt(ord[n]) - ord[n]>>]
+Preds == {"high", "low", "default", "rule"}
+
+(***************************************************************************)
 (* Theorems, checked by TLC over the whole square (0..Order+1)^2 for       *)
 (* Bits = 2..8 (MC_Envelope).                                              *)
 (***************************************************************************)
@@ -74,6 +102,9 @@ ThmRate(Sq) ==
 ThmRows(Sq) ==
   \A k \in Sq : \A kind \in Kinds3 : \A r \in Sq :
      Supports(kind, k, r) <=> (r >= 1 /\ r <= RowMax(kind, k))
+ThmBreaks(Sq) ==
+  \A k \in Sq : \A pred \in Preds : \A r \in Sq :
+     ValueAt(pred, k, r) = ValueAt(pred, k, BreakBelow(pred, k, r))
 ThmMonotone(Sq) ==
   \A k, r \in Sq : \A kind \in Kinds3 :
      Supports(kind, k, r) =>
